@@ -147,7 +147,7 @@ class C07(Check):
                    'unmutated lines; compared only when every mutated line was answered with an error report and '
                    'polling is off (timestamps masked)']
     PROBES = ('c07.invalid-utf8', 'c07.bad-json', 'c07.cut-inside-line', 'c07.recv-timeout-inside-line',
-              'c07.concurrent-updates', 'c07.long-line', 'c07.reference-compared')
+              'c07.concurrent-updates', 'c07.long-line', 'c07.reference-compared', 'c07.churn-connection')
 
     def gen_case(self, rng, tier):
         specs = [genmod.gen_module_spec(rng, f'm{i}', depth=rng.choice([1, 2]), full=True)
@@ -180,6 +180,9 @@ class C07(Check):
                  'cuts': sorted(rng.sample(range(1, 4000), rng.choice([0, 0, 1, 3, 8, 30]))),
                  'cut_gap': rng.choice([0, 0.01, 1.5, 3.2]),
                  'second': rng.choice([None, 'idle', 'activated', 'logging']),
+                 # further connections which activate and leave again while the requests are being handled
+                 'churn': [[rng.choice([0, 0, 0.001, 0.01, 0.1]), rng.choice([0, 0, 0.001, 0.01])]
+                           for _ in range(rng.choice([0, 0, 1, 3, 6]))],
                  'eol': rng.choice(['\n', '\n', '\r\n'])}
         return {'shape': shape, 'ops': ops}
 
@@ -191,6 +194,9 @@ class C07(Check):
                 yield dict(case, shape=dict(sh, cuts=sh['cuts'][:len(sh['cuts']) // 2]))
         if sh['second']:
             yield dict(case, shape=dict(sh, second=None))
+        if sh.get('churn'):
+            yield dict(case, shape=dict(sh, churn=[]))
+            yield dict(case, shape=dict(sh, churn=sh['churn'][:1]))
         if sh['line_gaps']:
             yield dict(case, shape=dict(sh, line_gaps=0))
         if sh['seg_bias'] < 1 or sh['lat_bias'] < 1:
@@ -226,6 +232,25 @@ class C07(Check):
         cl = nodeworld.RawClient(world, 10767)
         ctx['client'] = cl
         ctx['second'] = second
+        def churner():
+            for before, stay in shape.get('churn') or ():
+                if before:
+                    time.sleep(before)
+                else:
+                    sim.yield_point()
+                c3 = nodeworld.RawClient(world, 10767)
+                c3.request('activate', timeout=30)
+                if stay:
+                    time.sleep(stay)
+                else:
+                    sim.yield_point()
+                c3.close()
+                sim.count('c07.churn-connection')
+        chth = None
+        if shape.get('churn'):
+            import threading
+            chth = threading.Thread(target=churner, name='churner')
+            chth.start()
         pos = 0
         cuts = [c for c in shape['cuts'] if c < len(stream)] + [len(stream)]
         for c in cuts:
@@ -240,6 +265,8 @@ class C07(Check):
                     time.sleep(shape['cut_gap'])
         ok = cl.wait_reply(0, timeout=120, count=ctx['nreq'])
         ctx['all_replied'] = ok
+        if chth is not None:
+            chth.join()
         cl.drain(quiet=1.5, maxtime=10)
         # the handler must still be alive and answering
         hrec = world.handlers[cl.hidx]
